@@ -23,7 +23,28 @@ func il(v int64) ast.Node                        { return ast.IntLit{V: v} }
 // the call expression rendering its result.
 func pureFunction(r *core.Rng) (defs []ast.Node, callExpr ast.Node, kind string) {
 	deep := ast.Assign{Name: "pdeep", Value: ast.FuncLit{Params: []string{"n"}, Body: ast.If{Cond: ast.Binary{Op: "<=", L: nm("n"), R: il(0)}, Then: il(0), Else: ast.Binary{Op: "+", L: il(1), R: icall("pdeep", ast.Binary{Op: "-", L: nm("n"), R: il(1)})}}}}
-	switch r.Intn(10) {
+	switch r.Intn(11) {
+	case 10: // a loop as the last statement of the function; the call that matters runs it zero times (the value is nil)
+		kind = "loop-tail-possibly-empty"
+		var body ast.Node
+		switch r.Intn(3) {
+		case 0:
+			body = ast.For{Vars: []string{"i"}, Iters: []ast.Node{icall("fromto", il(0), nm("n"))}, Body: ast.Binary{Op: "*", L: nm("i"), R: il(2)}}
+		case 1:
+			body = ast.Block{Stmts: []ast.Node{ast.Assign{Name: "k", Value: nm("n")}, ast.While{Cond: ast.Binary{Op: ">", L: nm("k"), R: il(0)}, Body: ast.Block{Stmts: []ast.Node{ast.Assign{Name: "k", Value: ast.Binary{Op: "-", L: nm("k"), R: il(1)}}, ast.Binary{Op: "*", L: nm("k"), R: il(3)}}}}}}
+		default:
+			body = ast.Block{Stmts: []ast.Node{ast.Assign{Name: "w", Value: ast.Binary{Op: "+", L: nm("n"), R: il(1)}},
+				ast.For{Vars: []string{"i", "j"}, Iters: []ast.Node{icall("fromto", il(0), nm("n")), icall("elems", ast.StrLit{V: "abc"})}, Body: ast.ArrayLit{Elems: []ast.Node{nm("i"), nm("j"), nm("w")}}}}}
+		}
+		// the (possibly absent) value is bound by a wrapper: binding an absent value is the documented nil error,
+		// the same in every context; a value made up from whatever lies on the stack is not
+		defs = []ast.Node{ast.Assign{Name: "ploop", Value: ast.FuncLit{Params: []string{"n"}, Body: body}},
+			ast.Assign{Name: "pf", Value: ast.FuncLit{Params: []string{"n"}, Body: ast.Block{Stmts: []ast.Node{ast.Assign{Name: "x", Value: icall("ploop", nm("n"))}, ast.ArrayLit{Elems: []ast.Node{nm("x"), nm("n")}}}}}}}
+		// the zero-iteration calls are statements of their own (their value, nil, is compared with the reference);
+		// the call that is placed everywhere runs the loop
+		defs = append(defs, icall("ploop", il(0)), ast.Assign{Name: "pq", Value: ast.FuncLit{Params: []string{"n"}, Body: ast.Block{Stmts: []ast.Node{ast.Assign{Name: "t", Value: ast.Binary{Op: "+", L: nm("n"), R: il(1)}}, icall("ploop", nm("n"))}}}},
+			icall("pq", il(0)), ast.For{Vars: []string{"zz"}, Iters: []ast.Node{icall("fromto", il(0), il(2))}, Body: icall("pq", il(0))})
+		return defs, toa(icall("pf", il(int64(r.Range(1, 3))))), kind
 	case 8: // function literals written in a for iterator expression escape the loop; another function's loop recycles the context
 		kind = "iterator-expression-closure"
 		spin := ast.Assign{Name: "pspin", Value: ast.FuncLit{Params: []string{"q"}, Body: ast.Block{Stmts: []ast.Node{
@@ -224,6 +245,25 @@ func c03Session(r *core.Rng, defs []ast.Node, call ast.Node) (stmts []ast.Node, 
 		{"after-failure", func(dst string) []ast.Node {
 			return []ast.Node{ast.Binary{Op: "+", L: icall("zdeep", il(20)), R: ast.Binary{Op: "/", L: il(1), R: il(0)}}, ast.Assign{Name: dst, Value: call}}
 		}},
+		{"after-failure-under-closure-frames", func(dst string) []ast.Node {
+			// the failing call chain defined a closure on every level (each frame had a frame header) and is dropped as a whole
+			return []ast.Node{
+				ast.Assign{Name: "zfc", Value: ast.FuncLit{Params: []string{"d", "e", "f"}, Body: ast.Block{Stmts: []ast.Node{
+					ast.Assign{Name: "zg", Value: ast.FuncLit{Body: ast.Binary{Op: "+", L: nm("d"), R: nm("f")}}},
+					ast.If{Cond: ast.Binary{Op: "<=", L: nm("d"), R: il(0)}, Then: ast.Binary{Op: "/", L: icall("zg"), R: il(0)}, Else: icall("zfc", ast.Binary{Op: "-", L: nm("d"), R: il(1)}, il(77), il(88))}}}}},
+				icall("zfc", il(int64(r.Range(1, 6))), il(5), il(6)), ast.Assign{Name: dst, Value: call}}
+		}},
+		{"after-abandoned-closure-generator", func(dst string) []ast.Node {
+			// a generator that defined closures d calls deep is left early; the next loop recycles its context; all in one statement
+			return []ast.Node{
+				ast.Assign{Name: "zcg", Value: ast.FuncLit{Params: []string{"d", "e"}, Body: ast.Block{Stmts: []ast.Node{
+					ast.Assign{Name: "zg", Value: ast.FuncLit{Body: ast.Binary{Op: "*", L: nm("d"), R: nm("e")}}},
+					ast.If{Cond: ast.Binary{Op: "<=", L: nm("d"), R: il(0)}, Then: ast.Block{Stmts: []ast.Node{ast.Yield{X: nm("zg")}, ast.Yield{X: nm("zg")}}}, Else: icall("zcg", ast.Binary{Op: "-", L: nm("d"), R: il(1)}, il(99))}}}}},
+				ast.Assign{Name: "zleave", Value: ast.FuncLit{Params: []string{"k"}, Body: ast.For{Vars: []string{"zh"}, Iters: []ast.Node{icall("zcg", nm("k"), il(3))}, Body: ast.Return{X: icall("zh")}}}},
+				ast.Block{Stmts: []ast.Node{icall("zleave", il(int64(r.Range(0, 4)))),
+					ast.For{Vars: []string{"zq"}, Iters: []ast.Node{icall("fromto", il(0), il(2))}, Body: ast.Assign{Name: dst, Value: call}},
+					nm(dst)}}}
+		}},
 		{"after-stack-growth", func(dst string) []ast.Node {
 			return []ast.Node{icall("zdeep", il(int64([]int{140, 600, 4000}[r.Intn(3)]))), ast.Assign{Name: dst, Value: call}}
 		}},
@@ -349,6 +389,22 @@ func c03Case(ctx *core.Ctx, idx int) core.Result {
 		}
 		return val.Debug(want[i].Value)
 	}
+	// every statement of the session (definitions, noise, direct calls) against the reference
+	for i := range stmts {
+		g, w := "error:"+got[i].Err, "error:"+want[i].Err
+		if got[i].Err == "" {
+			g = val.Debug(got[i].Value)
+		}
+		if want[i].Err == "" {
+			w = val.Debug(want[i].Value)
+		}
+		if g != w {
+			in["session"] = sessionText(stmts)
+			res.Verdict = core.Violated
+			res.Viol = &core.Violation{Monitor: "differential", Detail: fmt.Sprintf("statement %d %q: %s, reference %s", i, trunc(ast.Print(stmts[i], nil), 200), trunc(g, 200), trunc(w, 200)), Input: in}
+			return res
+		}
+	}
 	base := ""
 	for k, p := range probes {
 		g, w := render(p), renderRS(p)
@@ -445,7 +501,7 @@ func init() {
 			{Name: "uninit", Count: countFn(300, 12000), Run: c03Uninit},
 			{Name: "depths", Count: countFn(48, 1200), Run: func(ctx *core.Ctx, idx int) core.Result { return depthCase("C03", ctx, idx) }},
 		},
-		Floors: []core.Floor{{Key: "placements_compared", Quick: 12000, Thor: 500000}, {Key: "tag:placement:", Quick: 19, Thor: 19}, {Key: "tag:function:", Quick: 10, Thor: 10}, {Key: "stack_growths", Quick: 3000, Thor: 80000}, {Key: "context_clone_reuse", Quick: 500, Thor: 15000}},
+		Floors: []core.Floor{{Key: "placements_compared", Quick: 12000, Thor: 500000}, {Key: "tag:placement:", Quick: 21, Thor: 21}, {Key: "tag:function:", Quick: 11, Thor: 11}, {Key: "stack_growths", Quick: 3000, Thor: 80000}, {Key: "context_clone_reuse", Quick: 500, Thor: 15000}},
 	})
 	core.CaseSeconds["C03/placements"] = 1
 }
